@@ -12,6 +12,12 @@ CHECKS = {
         'time_limit': {'quick': 600, 'thorough': 3600},
         'assumptions': CALNOTE,
     },
+    'C05': {
+        'bins': [rcbin('C05')],
+        'shards': {'quick': 8, 'thorough': 16},
+        'time_limit': {'quick': 600, 'thorough': 3600},
+        'assumptions': CALNOTE,
+    },
     'C17': {
         'bins': [rcbin('C17')],
         'shards': {'quick': 8, 'thorough': 16},
